@@ -201,9 +201,10 @@ func addSeed(t *sx, out map[string]*sx) {
 	if len(s) > 160 {
 		return
 	}
-	// skip integer literals other than small ones
+	// integer literals: only those that are themselves an index in the goal (a fixed
+	// layout offset); the small ones are added separately
 	if t.kids == nil {
-		if _, ok := smtIntValue(s); ok {
+		if v, ok := smtIntValue(s); ok && (v < 8 || v > 100000) {
 			return
 		}
 	}
